@@ -20,40 +20,34 @@ EXTENDS ControlPlane
 
 CONSTANTS Clients, Prefixes, PrefixOf   \* PrefixOf: [Inst \cup {"X"} -> SUBSET Prefixes]
 
-VARIABLES rpc, rpath, rsnap, rres,      \* per client: pc, requested prefix, table loaded, result
-          svcSnap, activeSnap           \* history: the health snapshot behind svccfg / active
+VARIABLES rpc, rpath, rsnap, rres       \* per client: pc, requested prefix, table loaded, result
 rvars == <<rpc, rpath, rsnap, rres>>
-fvars == <<vars, rvars, svcSnap, activeSnap>>
+fvars == <<vars, rvars>>
 
-NoSnap == [i |-> [x \in Inst |-> "absent"], n |-> [x \in Node |-> "ok"]]
 FInit == /\ Init
          /\ rpc = [c \in Clients |-> "idle"] /\ rpath = [c \in Clients |-> ""]
          /\ rsnap = [c \in Clients |-> {}] /\ rres = [c \in Clients |-> ""]
-         /\ svcSnap = NoSnap /\ activeSnap = NoSnap
 
-\* control-plane steps with the history variables threaded through
-CP == \/ (RegChange \/ WsIssue \/ WsHealth \/ (\E s \in Services : WsCatalog(s)) \/ WkIssue \/ WkAnswer
-            \/ BeRecvMan \/ BeSame \/ BeReject) /\ UNCHANGED <<svcSnap, activeSnap>>
-      \/ BeRecvSvc /\ svcSnap' = wsSnap /\ UNCHANGED activeSnap
-      \/ BeInstall /\ activeSnap' = svcSnap /\ UNCHANGED svcSnap
+\* the control plane's own steps (ControlPlane keeps the snapshot history svcSnap / activeSnap)
+CP == Next
 
 Serve(t, p) == LET s == {i \in t : p \in PrefixOf[i]} IN IF s = {} THEN {"noroute"} ELSE s
 
 ReqInv(c, p) == /\ rpc[c] = "idle" /\ rpc' = [rpc EXCEPT ![c] = "sent"] /\ rpath' = [rpath EXCEPT ![c] = p]
-                /\ UNCHANGED <<vars, rsnap, rres, svcSnap, activeSnap>>
+                /\ UNCHANGED <<vars, rsnap, rres>>
 ReqLookup(c) == /\ rpc[c] = "sent" /\ rpc' = [rpc EXCEPT ![c] = "looked"] /\ rsnap' = [rsnap EXCEPT ![c] = active]
-                /\ UNCHANGED <<vars, rpath, rres, svcSnap, activeSnap>>
+                /\ UNCHANGED <<vars, rpath, rres>>
 ReqRet(c, r) == /\ rpc[c] = "looked" /\ r \in Serve(rsnap[c], rpath[c])
                 /\ rpc' = [rpc EXCEPT ![c] = "idle"] /\ rres' = [rres EXCEPT ![c] = r]
-                /\ UNCHANGED <<vars, rpath, rsnap, svcSnap, activeSnap>>
+                /\ UNCHANGED <<vars, rpath, rsnap>>
 Req == \E c \in Clients : (\E p \in Prefixes : ReqInv(c, p)) \/ ReqLookup(c) \/ (\E r \in Inst \cup {"X", "noroute"} : ReqRet(c, r))
 
 FNext == (CP /\ UNCHANGED rvars) \/ Req
 FSpec == FInit /\ [][FNext]_fvars
 
-\* every routed instance was passing in the snapshot its table was built from
-RoutedWerePassing == \A i \in active \cap Inst : Passing(activeSnap.i, activeSnap.n, i)
+\* (RoutedWerePassing - every routed instance was passing in the snapshot its table was built from - is
+\* ControlPlane's invariant and is checked here too)
 \* at quiescence a request is answered exactly as the registry prescribes
-QuiescentServe == \A c \in Clients : (Quiescent /\ Valid(RegCfg, kv) /\ rpc[c] = "sent")
+QuiescentServe == \A c \in Clients : (Quiescent /\ Valid(RegCfg, kv) /\ ~svcDegraded /\ rpc[c] = "sent")
                      => Serve(active, rpath[c]) = Serve(TableOf(RegCfg, kv), rpath[c])
 =============================================================================
